@@ -228,7 +228,8 @@ class TimeIt:
     parent = thread_local.thread_local_get('__timing_context__', None)
     if parent is not None:
       parent.add(self)
-      self._parent = parent
+    # NOTE: also reset when entered again at the top level.
+    self._parent = parent
     thread_local.thread_local_set('__timing_context__', self)
     self.start()
     return self
